@@ -2528,9 +2528,18 @@ func getVars(n *node) (vars []*node) {
 func genGlobalVarDecl(nodes []*node, sc *scope) (*node, error) {
 	varNode := &node{kind: varDecl, action: aNop, gen: nop}
 
+	toInit := map[*node]bool{}
+	for _, n := range nodes {
+		toInit[n] = true
+	}
 	deps := map[*node][]*node{}
 	for _, n := range nodes {
-		deps[n] = getVarDependencies(n, sc)
+		for _, d := range getVarDependencies(n, sc) {
+			// Variables defined by a previous evaluation are already initialized.
+			if toInit[d] {
+				deps[n] = append(deps[n], d)
+			}
+		}
 	}
 
 	// As per the Go specification, repeatedly select the earliest variable in
